@@ -121,7 +121,9 @@ pub(crate) fn mk_ax_n(nxmm: usize) -> Axecutor {
             memory: Vec::with_capacity(8),
             registers,
             xmm_registers: xmm,
-            rflags: kani::any::<u64>(),
+            // bits 0..=21 of RFLAGS (every defined flag and the reserved bits among them) are arbitrary;
+            // bits 22..=63 are reserved-zero in the architecture and no emulator path sets them
+            rflags: kani::any::<u64>() & 0x3f_ffff,
             fs: kani::any::<u64>(),
             gs: kani::any::<u64>(),
             finished: false,
